@@ -13,8 +13,13 @@ for f in $tmp/lane*; do
     while read n; do
       grep -q '"neutralised_by"' seeded/$n/meta.json 2>/dev/null && continue     # no longer a behaviour change (see its meta.json)
       id=$(/venv/bin/python -c "import json,sys; print(json.load(open(sys.argv[1]))['detected_by_quick_checks'][0])" seeded/$n/meta.json 2>/dev/null || echo ${n%%-*})
-      res=$(VERIF_WORKERS=${VERIF_WORKERS:-8} tools/try_mutant.sh seeded/$n/patch.diff $id 2>&1 | grep "^== " | head -1)
+      # first a third of the quick budget without minimisation; the full quick check only if that did not catch it
+      res=$(VERIF_FAST_REPORT=1 VERIF_RUNS=${KILL_RUNS:-2000} VERIF_WORKERS=${VERIF_WORKERS:-8} tools/try_mutant.sh seeded/$n/patch.diff $id 2>&1 | grep "^== " | head -1)
       rc=$(echo "$res" | sed -E 's/.*exit=([0-9]+).*/\1/')
+      if [ "$rc" != 1 ]; then
+        res=$(VERIF_FAST_REPORT=1 VERIF_WORKERS=${VERIF_WORKERS:-8} tools/try_mutant.sh seeded/$n/patch.diff $id 2>&1 | grep "^== " | head -1)
+        rc=$(echo "$res" | sed -E 's/.*exit=([0-9]+).*/\1/')
+      fi
       printf ' "%s": {"check": "%s", "quick_exit": %s, "killed": %s}\n' "$n" "$id" "${rc:-null}" "$([ "$rc" = 1 ] && echo true || echo false)" >> $f.out
       echo "$n $res"
     done < $f
